@@ -40,6 +40,21 @@ CHECKS = {
    note="Trusted: Coq kernel; extraction/driver; harness generators, .pil reader, array filler. Insertions avoid strands of domain-level structures (those would need an extra '.' per inserted domain). Axioms: none.",
    technique="Coq proofs on the emission model + pairwise differential correspondence through compiler, designer front-end and finisher",
    design="5 C14"),
+ "C04": dict(
+   text="Proof (partial, at the level of the link graph seeded by Convert.get_constraints over strand positions and auxiliary sequence nodes): the closure step is exact and never asserts (reusing C07), every equality / complement representative is the least position of its parity class, two positions share an equality representative iff they are forced equal, the complement representative equals the equality representative of the complementary class and is absent iff nothing is forced complementary, and the strand layout obeys its formula (7 theorems, closed). The line-by-line designer model (PIL loading, both layouts, seeding, closure, template propagation, representatives, dump) is compared with the real front-end on compiler-emitted and hand-written documents in both layouts, and both are compared with an independent denotation-level oracle (parity union-find over base nucleotides, no auxiliary nodes).",
+   note="Partial: that the closure over auxiliary nodes restricted to positions equals the closure of the document's denotation, and the template-intersection clause, are decided per case by the oracle, not proved. Hypothesis graph_closed is evaluated per case by the extracted checker. Trusted: Coq kernel; extraction/driver; harness/pepper.py (document generator/printer, spec_arrays oracle). Axioms: none.",
+   technique="Coq proofs over the seeded link graph + three-way correspondence (model, implementation, denotation oracle)",
+   design="5 C04"),
+ "C15": dict(
+   text="Proof (partial): whenever the model's template propagation succeeds, no initialised node is forced complementary to itself, i.e. every odd cycle (hairpin pairing a domain with itself, starred equal chains over odd-length domains) is reported; the closure underneath is exact (2 theorems, closed). Correspondence on documents about half of which are unsatisfiable (planted hairpins, long odd cycles, template clashes inside repeated sequences and across equal lines): the implementation must raise the over-constrained error exactly when the denotation-level satisfiability oracle finds no assignment, in both layouts.",
+   note="Partial: the template-conflict half (success => a satisfying assignment exists; empty intersection => failure) is decided per case by the oracle, not proved. Trusted: as C04. Axioms: none.",
+   technique="Coq proof (odd cycles) + satisfiability-oracle correspondence",
+   design="5 C15"),
+ "C05": dict(
+   text="Proof (partial, representative level): for every exact closure table the equality representative of a nucleotide position is defined, idempotent and at most the position; the complement representative is itself a representative and its own complement representative is the position's equality representative (5 theorems, closed). Per case: design(just_files=True) in both layouts, file contents compared with the model's eq_map/wc_map/st_map output, the Coq-extracted predicate contract_ok evaluated on the real files, a separator/layout check, and two runs of an ASan/UBSan spuriousSSM built from the working tree which must exit 0 without ERROR or sanitizer report.",
+   note="Partial: template clauses of the contract and acceptance by the C program are checked per case, not proved (no C semantics installed). Trusted: as C04 plus clang sanitizers. Axioms: none.",
+   technique="Coq proofs on representatives + extracted contract predicate on real files + sanitised binary acceptance",
+   design="5 C05"),
 }
 
 checks = []
